@@ -104,6 +104,9 @@ func caseList(r *mon.Runner) []mon.CaseSpec {
 		}
 	}
 	rnd := r.Rand()
+	for i := 0; i < r.Pick(1, 8); i++ {
+		add(spec{Kind: "ipcperm"})
+	}
 	for i := 0; i < r.Pick(6, 120); i++ {
 		q := make([]int, 2+rnd.Intn(5))
 		for j := range q {
@@ -170,6 +173,8 @@ func TestC19(t *testing.T) {
 			runStall(c, sp)
 		case "wsorigin":
 			runWSOrigin(c, sp)
+		case "ipcperm":
+			runIPCPerm(c, sp)
 		case "unsup":
 			runUnsup(c, sp)
 		case "device":
